@@ -428,7 +428,11 @@ class Repository(base.AbstractGitHostObject, base.AbstractRepository):
             raise
 
         for key, status in combined.status.items():
-            cache.BUILD_STATUS_CACHE[key].set(combined.commit, status)
+            # never downgrade a build already seen successful (under any
+            # key, not only the one being polled)
+            cached = cache.BUILD_STATUS_CACHE[key].get(combined.commit, None)
+            if not cached or cached.state != 'SUCCESSFUL':
+                cache.BUILD_STATUS_CACHE[key].set(combined.commit, status)
 
         return combined
 
